@@ -72,6 +72,10 @@ def _classify_dead(run: _site.Run, idx: Dict[str, List[Any]], page: str, href: s
         c = run.system.allobjects.get(unquote(frag))
         if isinstance(c, model.Class) and any(b is None and isinstance(run.system.allobjects.get(n), model.Class) for n, b in zip(c.bases, c.baseobjects)):
             return 'C11:dead-anchor:class-dropped-from-class-index'
+    # a section title of a reST docstring links back to "its" entry of the table of contents; the table is rebuilt (with new
+    # ids, overwriting the title's refid) for every sidebar that shows it, the docstring body is rendered once
+    if href.startswith('#rst-toc-entry-'):
+        return 'C11:dead-anchor:section-title-backlink-to-toc-entry'
     # a same-page link inside an inherited docstring: it was rendered relative to the page of the class the docstring
     # comes from
     if href.startswith('#') and frag:
